@@ -289,6 +289,7 @@ enum Directive {
     File(String),
     Raw(Block),
     Type { name: String, opts: Vec<String> },
+    Item { kind: String, name: String },
     Fn(FnSpec),
 }
 
@@ -328,7 +329,7 @@ fn parse_vspec(path: &Path) -> Result<Vec<Directive>, String> {
             Some((w, r)) => (w, r.trim()),
             None => (l, ""),
         };
-        let top = matches!(word, "file" | "raw" | "type" | "fn");
+        let top = matches!(word, "file" | "raw" | "type" | "fn" | "item");
         if top {
             if let Some(f) = cur.take() {
                 out.push(Directive::Fn(f));
@@ -344,6 +345,12 @@ fn parse_vspec(path: &Path) -> Result<Vec<Directive>, String> {
                 let mut it = rest.split_whitespace();
                 let name = it.next().unwrap_or("").to_string();
                 out.push(Directive::Type { name, opts: it.map(|s| s.to_string()).collect() });
+            }
+            "item" => {
+                let mut it = rest.split_whitespace();
+                let kind = it.next().unwrap_or("").to_string();
+                let name = it.next().unwrap_or("").to_string();
+                out.push(Directive::Item { kind, name });
             }
             "fn" => {
                 cur = Some(FnSpec { key: rest.to_string(), ret: "r".into(), mode: "verify".into(), vspec_line: i + 1, ..Default::default() });
@@ -481,6 +488,8 @@ struct Rw<'a> {
     calls: Vec<(String, usize, bool)>,        // (callee name, end of enclosing statement, stmt is a tail expression)
     stmt_stack: Vec<(usize, bool)>,
     closures: Vec<(usize, usize, usize, bool)>, // (end of `|params|`, body start, body end, body is a block)
+    /// T2.alias: `let x = this.f;` (f a projected, un-pinned field: x is just `&mut self.f`) is inlined
+    aliases: HashMap<String, String>,
 }
 
 fn path_is(p: &syn::Path, segs: &[&str]) -> bool {
@@ -666,6 +675,19 @@ impl<'a, 'ast> Visit<'ast> for Rw<'a> {
                                 self.fire("T2.project");
                                 self.proj_var = Some(pi.ident.to_string());
                                 self.ed.replace(self.r(s.span()), "", "T2.project");
+                                return;
+                            }
+                        }
+                    }
+                    // T2.alias: let x = this.f;
+                    if let (syn::Pat::Ident(pi), syn::Expr::Field(f), Some(pv)) = (&l.pat, &*init.expr, self.proj_var.clone()) {
+                        if let syn::Member::Named(fid) = &f.member {
+                            if expr_is_path(&f.base, &pv) && pi.mutability.is_none() && pi.by_ref.is_none()
+                                && self.facts.projected_fields.contains(&fid.to_string()) && !self.facts.pinned_fields.contains(&fid.to_string())
+                            {
+                                self.fire("T2.alias");
+                                self.aliases.insert(pi.ident.to_string(), fid.to_string());
+                                self.ed.replace(self.r(s.span()), "", "T2.alias");
                                 return;
                             }
                         }
@@ -886,6 +908,12 @@ impl<'a, 'ast> Visit<'ast> for Rw<'a> {
             syn::Expr::Path(p) => {
                 if p.qself.is_none() {
                     if let Some(id) = p.path.get_ident() {
+                        if let Some(f) = self.aliases.get(&id.to_string()).cloned() {
+                            self.fire("T2.alias");
+                            let whole = self.r(e.span());
+                            self.ed.replace(whole, &format!("(&mut self.{f})"), "T2.alias");
+                            return;
+                        }
                         if self.destructured.contains(&id.to_string()) {
                             // receiver / index base position: self.x ; elsewhere (&mut self.x) -- decided by parent, default place
                             self.fire("T10.destructure");
@@ -1034,6 +1062,60 @@ fn emit_type(src: &Src, facts: &Facts, name: &str, opts: &[String], out: &mut Ou
     Err(format!("type `{name}` not found in {}", src.rel))
 }
 
+/// Copy a whole top-level item (trait / mod / trait impl) with the type-level rewrites applied.
+/// `use core::future::Future` / `use futures_core::Stream` inside it are redirected to the preamble
+/// traits of the same name (T11).
+fn emit_item(src: &Src, facts: &Facts, kind: &str, name: &str, out: &mut Out) -> Result<(), String> {
+    for it in &src.ast.items {
+        let (ok, start) = match (kind, it) {
+            ("trait", syn::Item::Trait(t)) if t.ident == name => (true, src.range(t.trait_token.span()).0),
+            ("mod", syn::Item::Mod(m)) if m.ident == name => (true, src.range(m.mod_token.span()).0),
+            ("impl", syn::Item::Impl(i)) => {
+                let tn = i.trait_.as_ref().and_then(|(_, p, _)| p.segments.last().map(|s| s.ident.to_string()));
+                (tn.as_deref() == Some(name), src.range(i.impl_token.span()).0)
+            }
+            ("const", syn::Item::Const(c)) if c.ident == name => (true, src.range(c.const_token.span()).0),
+            _ => (false, 0),
+        };
+        if !ok {
+            continue;
+        }
+        let end = src.range(it.span()).1;
+        let mut rw = new_rw(src, facts);
+        rw.visit_item(it);
+        if !rw.errors.is_empty() {
+            return Err(format!("item {kind} {name}: {}", rw.errors.join("; ")));
+        }
+        // drop doc attributes inside the item
+        struct Docs<'b> { src: &'b Src, v: Vec<(usize, usize)> }
+        impl<'b, 'ast> Visit<'ast> for Docs<'b> {
+            fn visit_attribute(&mut self, a: &'ast syn::Attribute) {
+                let r = self.src.range(a.span());
+                if r.0 >= r.1 { return; }
+                self.v.push(r);
+            }
+        }
+        let mut d = Docs { src, v: vec![] };
+        d.visit_item(it);
+        for r in d.v {
+            if r.0 >= start {
+                rw.ed.replace(r, "", "T9.attr");
+            }
+        }
+        let mut r = render(src, (start, end), &rw.ed)?;
+        let before = r.text.clone();
+        r.text = r.text.replace("use core::future::Future;", "use super::Future;").replace("use futures_core::Stream;", "use super::Stream;");
+        if r.text != before {
+            out.edits_log.push(json!({"fn": format!("item {kind} {name}"), "file": src.rel, "line": src.line_of(start), "rule": "T11.preamble_trait", "from": "use core::future::Future / futures_core::Stream", "to": "use super::{Future,Stream}"}));
+        }
+        out.push(if kind == "impl" { "\n" } else { "\npub " }, Origin::Gen);
+        out.push_rendered(&r);
+        out.push("\n", Origin::Gen);
+        return Ok(());
+    }
+    Err(format!("item `{kind} {name}` not found in {} (lost anchor)", src.rel))
+}
+
 fn new_rw<'a>(src: &'a Src, facts: &'a Facts) -> Rw<'a> {
     Rw {
         src,
@@ -1053,6 +1135,7 @@ fn new_rw<'a>(src: &'a Src, facts: &'a Facts) -> Rw<'a> {
         calls: vec![],
         stmt_stack: vec![],
         closures: vec![],
+        aliases: HashMap::new(),
     }
 }
 
@@ -1547,6 +1630,10 @@ fn run(repo: &Path, verif: &Path, outp: &Path, mapp: &Path, probes: bool) -> Res
                         Directive::Type { name: tn, opts } => {
                             let s = cur.ok_or_else(|| format!("{name}: `type` before `file`"))?;
                             emit_type(s, &facts, tn, opts, &mut out)?;
+                        }
+                        Directive::Item { kind, name: iname } => {
+                            let s = cur.ok_or_else(|| format!("{name}: `item` before `file`"))?;
+                            emit_item(s, &facts, kind, iname, &mut out)?;
                         }
                         Directive::Fn(fs) => {
                             let s = cur.ok_or_else(|| format!("{name}: `fn` before `file`"))?;
